@@ -6,15 +6,25 @@ func init() {
 	propRunners["C13"] = runC13
 }
 
-func kernelsC13() ([]string, []layera.Kernel) {
-	return []string{"xtype"}, []layera.Kernel{
+func kernelsC13(thorough bool) ([]string, []layera.Kernel) {
+	maxPaths := 2
+	if thorough {
+		maxPaths = 3
+	}
+	stub := []string{"github.com/jmattheis/goverter/method.Parse", "(*github.com/jmattheis/goverter/pkgload.PackageLoader).GetOne", "(*github.com/jmattheis/goverter/pkgload.PackageLoader).GetMatching"}
+	return []string{"xtype", "builder", "pkgload", "config", "enum"}, []layera.Kernel{
 		{Name: "K9.typecode", Pkg: "xtype", Harness: "VerifHarness_C13_TypeCode", Unwind: 16},
 		{Name: "K9.enumlookup", Pkg: "xtype", Harness: "VerifHarness_C13_EnumLookup", Unwind: 16},
+		{Name: "K9.tostring", Pkg: "builder", Harness: "VerifHarness_C13_ErrorToString", Unwind: 24, MaxPaths: 600000, SetInts: map[string]int{"VerifC13MaxPaths": maxPaths}},
+		{Name: "K9.methodstring", Pkg: "pkgload", Harness: "VerifHarness_C13_ParseMethodString", Unwind: 24},
+		{Name: "K9.methodmap", Pkg: "config", Harness: "VerifHarness_C13_ParseMethodMap", Unwind: 24, Stub: stub},
+		{Name: "K9.settinglines", Pkg: "config", Harness: "VerifHarness_C13_SettingLines", Unwind: 64, Stub: stub},
+		{Name: "K9.transformregex", Pkg: "enum", Harness: "VerifHarness_C13_TransformRegex", Unwind: 24},
 	}
 }
 
 func runC13(opt *Options) int {
-	pkgs, ks := kernelsC13()
+	pkgs, ks := kernelsC13(opt.Thorough())
 	lr := &laRun{
 		Opt:     opt,
 		Pkgs:    pkgs,
